@@ -77,6 +77,37 @@ example : GoodAll [(sampleNested, none)] ∧
   subst hp
   decide
 
+/-- non-vacuous for the defs a `<%call>` exports from below a control line and from a nested `<%call>`: `d5` (under
+    `% if`) is reached as `caller.d5('a')` and by name from the content, `d7` (a def of the inner `<%call>`) is reached
+    by the *outer* callee as `caller.d7()`; crash point 1 is the filter of the second `d5` call -/
+example : GoodAll [(sampleDeep, none)] ∧
+    (render (progOf [(sampleDeep, none)] 99) ⟨none, false⟩ 200).2.1 = "[2(na)|s|X(Is)B2(nb)]".toList ∧
+    (Spec.render ⟨[(sampleDeep, none)], 99⟩ ⟨none, false⟩ 200).2 = "[2(na)|s|X(Is)B2(nb)]".toList ∧
+    (render (progOf [(sampleDeep, none)] 1) ⟨none, false⟩ 200).2.1 = "[2(na)|s|X(Is)B".toList ∧
+    (Spec.render ⟨[(sampleDeep, none)], 1⟩ ⟨none, false⟩ 200).2 = "[2(na)|s|X(Is)B".toList := by
+  refine ⟨?_, by decide +kernel, by decide +kernel, by decide +kernel, by decide +kernel⟩
+  intro p hp
+  simp only [List.mem_singleton] at hp
+  subst hp
+  decide
+
+/-- non-vacuous for `<%block>` and `<%include>`: a named block of the template body, an anonymous block in a loop
+    (with a loop of its own), an anonymous block in a def, and an included template with a named block of the same
+    name and a buffered block (whose content the bare call drops); with crash point 0 the filter of the first block
+    fails and its content is lost -/
+example : GoodAll [(sampleBlocks, none), (sampleIncluded, none)] ∧
+    (render (progOf [(sampleBlocks, none), (sampleIncluded, none)] 99) ⟨none, false⟩ 200).2.1
+      = "a2(x[q])2(0u1i)2(0u1j)IkJ(2(2.3.0))".toList ∧
+    (Spec.render ⟨[(sampleBlocks, none), (sampleIncluded, none)], 99⟩ ⟨none, false⟩ 200).2
+      = "a2(x[q])2(0u1i)2(0u1j)IkJ(2(2.3.0))".toList ∧
+    (render (progOf [(sampleBlocks, none), (sampleIncluded, none)] 0) ⟨none, false⟩ 200).2.1 = "a".toList ∧
+    (Spec.render ⟨[(sampleBlocks, none), (sampleIncluded, none)], 0⟩ ⟨none, false⟩ 200).2 = "a".toList ∧
+    (render (progOf [(sampleBlocks, none), (sampleIncluded, none)] 99) ⟨none, false⟩ 200).1 ≠ .timeout := by
+  refine ⟨?_, by decide +kernel, by decide +kernel, by decide +kernel, by decide +kernel, by decide +kernel⟩
+  intro p hp
+  simp only [List.mem_cons, List.mem_nil_iff, or_false] at hp
+  rcases hp with rfl | rfl <;> decide
+
 /-- **Refinement, any construct in any scope**: the statements the generator emits for a guarded sub-template
     append to the buffer on top exactly what `Spec.snodes` returns, with the same outcome, counter and variables,
     and keep the locals that denote `caller`, the closures and the module. -/
